@@ -104,6 +104,12 @@ Definition burn (s : ist) (from kind t amt : Z) : result ist :=
 (* MintingEnabled: the module-wide governance parameter EnableErc20 first, then the pair's own switch.
    The parameter is kept in pair_on under the pseudo pair id Erc20Switch (toggled by TogglePair Erc20Switch). *)
 Definition Erc20Switch : Z := -1.
+(* "the voucher denoms of Alias tokens have bank metadata of their own", kept in pair_on under the pseudo pair id VoucherMeta.
+   False on a running chain (an inbound Alias voucher is refused, and the metadata ibc-go wrote during that receive is
+   discarded with it); ibc-go's transfer InitGenesis writes metadata for EVERY stored denom trace, so it is true after a
+   genesis export / import (op ExportImport).  From then on crosschain's ManyToOne (HasToken = HasDenomMetaData) takes the
+   voucher for a base denom of its own and IBCCoinToBaseCoin no longer swaps it for the base coin. *)
+Definition VoucherMeta : Z := -2.
 Definition convert_coin (who t amt : Z) (s : ist) : result ist :=
   if negb (pair_on s Erc20Switch && pair_on s t) then Err s else
   bind (pay s who ModErc20 ACoin t amt) (fun s1 => Ok (mint s1 who AErc t amt)).
@@ -263,6 +269,13 @@ Section Ibc.
                   (fun s3 => Ok (with_log s3 (EvReconv c q who t amt)))
         else Ok s2))
     | DAlias t =>
+        if pair_on s VoucherMeta then
+          (* after a genesis import: voucher minted back; IBCCoinToBaseCoin: "base coin" = the voucher itself;
+             IbcRefund: a recorded transfer would be re-converted — ConvertCoin finds no pair under the voucher's name *)
+          bind (pay (mint s ModTransfer AVoucher t amt) ModTransfer who AVoucher t amt) (fun s1 =>
+          bind (voucher_to_self who AVoucher t amt s1) (fun s2 =>
+          if in_rel (rel s2) c q then Err (with_rel s2 (del_rel (rel s2) c q)) else Ok s2))
+        else
         (* voucher minted back; IBCCoinToBaseCoin: voucher into the pool, base coin minted *)
         bind (pay (mint s ModTransfer AVoucher t amt) ModTransfer who AVoucher t amt) (fun s1 =>
         bind (pay s1 who ModTransfer AVoucher t amt) (fun s2 =>
@@ -316,7 +329,8 @@ Section Ibc.
   | Timeout (chan seq : Z)
   | AckRaw (chan seq : Z) (ok : bool)
   | TimeoutRaw (chan seq : Z)
-  | TogglePair (t : Z).
+  | TogglePair (t : Z)
+  | ExportImport.   (* ExportAppStateAndValidators, then a new app started from the exported genesis (InitChain) *)
 
   Definition step (s : ist) (o : op) : ist :=
     match o with
@@ -330,6 +344,13 @@ Section Ibc.
     | TogglePair t =>
         {| ibal := ibal s; rel := rel s; nextseq := nextseq s; commits := commits s; sent := sent s;
            pair_on := fun x => if x =? t then negb (pair_on s t) else pair_on s x;
+           has_acct := has_acct s; ilog := ilog s |}
+    | ExportImport =>
+        (* as the code is (finding C19-2): the erc20 genesis state carries params and token pairs only — the tracking records
+           (store prefix 0x04) are not exported; ibc core exports commitments and sequences, bank / evm / auth everything;
+           ibc-go transfer InitGenesis gives every stored denom trace bank metadata (VoucherMeta) *)
+        {| ibal := ibal s; rel := []; nextseq := nextseq s; commits := commits s; sent := sent s;
+           pair_on := fun x => if x =? VoucherMeta then true else pair_on s x;
            has_acct := has_acct s; ilog := ilog s |}
     end.
 
